@@ -892,3 +892,23 @@ def limits_intact(ck, S, rid, which):
         else:
             ck.ob(rid, sitestr(fn, expr), not wrong, "%s receives the %s limit unchanged (%d values from 1 to the largest int; non-positive values stay 'no limit')" % (label, which, len(grid)) if not wrong else
                   "%s does not receive the configured %s limit: %s - the sink enforces another limit than the one it was given" % (label, which, ", ".join(wrong[:4])), key="limit-intact|%s|%s" % (which, label.split()[0]))
+
+
+
+LINK_RESOLVERS = ("canonicalPath", "canonicalFilePath", "symLinkTarget", "readLink", "readSymLink", "junctionTarget", "realpath", "weakly_canonical", "canonical", "read_symlink")
+
+
+def names_stay_in_the_configured_directory(ck, S, rid):
+    """rotated files live next to the active file *as it was named*: the directory used for renaming and for the two scans comes from the file name the sink was
+    given (QFileInfo::path / absolutePath / dir), never from resolving symbolic links in it.  With the last component a link into another directory, a canonicalised
+    directory names the link target's directory: the rename moves the link (or the file) there, the next start scans another directory and starts a second index series."""
+    n = 0
+    for f in [v for v in S.m.values() if v is not None] :
+        for c in f.calls():
+            n += 1
+            short = strip_tmpl(c.get("callee") or "").split("::")[-1]
+            if short in LINK_RESOLVERS:
+                ck.ob(rid, sitestr(f, c), False, "%s resolves symbolic links in the log path (%s): for a log file reached through a link the rotated files, the index scan and the retention scan "
+                      "work in the link target's directory - not where the active file is named, and not where the previous run left its files" % (strip_tmpl(f.name).split("::")[-1], describe(c)[:50]),
+                      key="link-resolution|%s|%s" % (strip_tmpl(f.name).split("::")[-1], short))
+    ck.ob(rid, "(rotating sink)", True, "%d calls in the rotating sink's functions: none resolves symbolic links in the configured path" % n, key="link-resolution|summary")
